@@ -348,6 +348,8 @@ pub fn format_document_with_formatter<'a, 'o, 'c: 'o, T>(
     let mut stack = vec![(root, ChildRendering::HTML, Phase::Pre)];
 
     while let Some((node, child_rendering, phase)) = stack.pop() {
+        #[cfg(comrak_verif)]
+        crate::verif::step();
         match phase {
             Phase::Pre => {
                 let new_cr = match child_rendering {
@@ -380,6 +382,8 @@ pub fn format_document_with_formatter<'a, 'o, 'c: 'o, T>(
 
                 if !matches!(new_cr, ChildRendering::Skip) {
                     for ch in node.reverse_children() {
+                        #[cfg(comrak_verif)]
+                        crate::verif::step();
                         stack.push((ch, new_cr, Phase::Pre));
                     }
                 }
@@ -534,6 +538,8 @@ fn render_code_block<'a, T>(
 
             if !info.is_empty() {
                 while first_tag < info.len() && !isspace(info[first_tag]) {
+                    #[cfg(comrak_verif)]
+                    crate::verif::step();
                     first_tag += 1;
                 }
 
@@ -1148,6 +1154,8 @@ fn render_table_cell<'a, T>(
         let mut start = node.parent().unwrap().first_child().unwrap();
         let mut i = 0;
         while !start.same_node(node) {
+            #[cfg(comrak_verif)]
+            crate::verif::step();
             i += 1;
             start = start.next_sibling().unwrap();
         }
@@ -1606,6 +1614,8 @@ pub fn collect_text<'a>(node: &'a AstNode<'a>, output: &mut Vec<u8>) {
         }
         _ => {
             for n in node.children() {
+                #[cfg(comrak_verif)]
+                crate::verif::step();
                 collect_text(n, output);
             }
         }
@@ -1626,6 +1636,8 @@ fn put_footnote_backref<T>(
     let mut superscript = String::new();
 
     for ref_num in 1..=nfd.total_references {
+        #[cfg(comrak_verif)]
+        crate::verif::step();
         if ref_num > 1 {
             ref_suffix = format!("-{}", ref_num);
             superscript = format!("<sup class=\"footnote-ref\">{}</sup>", ref_num);
@@ -1671,6 +1683,8 @@ fn tagfilter(literal: &[u8]) -> bool {
     // stops right after the tag name.
     let rest = &literal[i..];
     for t in TAGFILTER_BLACKLIST.iter() {
+        #[cfg(comrak_verif)]
+        crate::verif::step();
         if rest.len() > t.len() && rest[..t.len()].eq_ignore_ascii_case(t.as_bytes()) {
             let j = i + t.len();
             return isspace(literal[j])
@@ -1687,8 +1701,12 @@ fn tagfilter_block(input: &[u8], o: &mut dyn Write) -> io::Result<()> {
     let mut i = 0;
 
     while i < size {
+        #[cfg(comrak_verif)]
+        crate::verif::step();
         let org = i;
         while i < size && input[i] != b'<' {
+            #[cfg(comrak_verif)]
+            crate::verif::step();
             i += 1;
         }
 
@@ -1752,6 +1770,8 @@ pub fn escape(output: &mut dyn Write, buffer: &[u8]) -> io::Result<()> {
 
     let mut offset = 0;
     for (i, &byte) in buffer.iter().enumerate() {
+        #[cfg(comrak_verif)]
+        crate::verif::step();
         if HTML_UNSAFE[byte as usize] {
             let esc: &[u8] = match byte {
                 b'"' => b"&quot;",
@@ -1803,8 +1823,12 @@ pub fn escape_href(output: &mut dyn Write, buffer: &[u8]) -> io::Result<()> {
     let mut i = 0;
 
     while i < size {
+        #[cfg(comrak_verif)]
+        crate::verif::step();
         let org = i;
         while i < size && HREF_SAFE[buffer[i] as usize] {
+            #[cfg(comrak_verif)]
+            crate::verif::step();
             i += 1;
         }
 
@@ -1844,6 +1868,8 @@ where
 {
     write!(output, "<{}", tag)?;
     for (attr, val) in attributes {
+        #[cfg(comrak_verif)]
+        crate::verif::step();
         write!(output, " {}=\"", attr.as_ref())?;
         escape(output, val.as_ref().as_bytes())?;
         output.write_all(b"\"")?;
